@@ -815,6 +815,7 @@ def mon_c11(case, obs, prefix):
     bad = []
     nxt = {}       # (UP SEID, URR id) -> next UR-SEQN expected, tracked independently of the implementation
     ended = {}     # (UP SEID, URR id) -> the URR was removed but its bookkeeping entry is still there (no final report came)
+    lost = {}      # transaction key -> UP SEID of a Session Report Request whose first transmission failed in the socket
     for i, ev, o, prev, prev_dp, dup in walk(case, obs, prefix):
         if o.get("fault"):
             bad.append((i, "fault: " + o["fault"]))
@@ -827,6 +828,15 @@ def mon_c11(case, obs, prefix):
             continue
         if ev["t"] == "report":
             lid = ev["seid"]
+            carriers = [x for x in sends if x["type"] == "srreq" and x["dldr"] < 0]
+            if ev.get("wfail") and not sends:
+                # the request never left the UPF (socket write failed): its usage reports have been numbered all the same and
+                # reach the SMF with the first retransmission
+                for e_ in d.get("tx") or []:
+                    if tx_entry(prev, e_["key"]) is None:
+                        lost[e_["key"]] = lid
+        elif ev["t"] == "timeout" and ev.get("tx") and key_of(prefix, ev["peer"], ev["seq"]) in lost and sends:
+            lid = lost.pop(key_of(prefix, ev["peer"], ev["seq"]))
             carriers = [x for x in sends if x["type"] == "srreq" and x["dldr"] < 0]
         elif ev["t"] == "recv" and not dup and ev["msg"]["k"] in ("mod", "del"):
             lid = ev["msg"]["seid"]
@@ -1314,6 +1324,23 @@ def directed_c11(rnd):
         _usa(1, 1, 5), _usa(1, 1, 6),
         _rc(0, 3, {"k": "mod", "seid": 1, "nid": {"absent": True}, "ops": {"cURR": [{"id": 1, "method": 2, "info": 0}]}}),
         _usa(1, 1, 7)]}]
+
+
+def directed_c11c(rnd):
+    """a Session Report Request whose first transmission fails in the socket: its usage reports keep their numbers (the
+    retransmission delivers them), the next report of the URR goes on from there"""
+    out = []
+    for first in (0, 1):
+        evs = [_rc(0, 1, {"k": "asr", "nid": {"v": 0}}),
+               _rc(0, 2, {"k": "est", "nid": {"v": 0}, "fseid": {"v": 10}, "ops": {"cURR": [{"id": 1, "method": 2, "info": 0}, {"id": 2, "method": 2, "info": 0}]}})]
+        evs += [_usa(1, 1, 5)] * first
+        evs += [dict(_usa(1, 1, 6), wfail=True),
+                {"t": "timeout", "tx": True, "peer": 0, "seq": first, "fail": [], "usage": []},
+                _usa(1, 1, 7), _usa(1, 2, 8),
+                _rc(0, 3, {"k": "mod", "seid": 1, "nid": {"absent": True}, "ops": {"qURR": [1]}},
+                    usage=[{"op": "query", "id": 1, "rpts": [{"urr": 1, "trig": 0, "vflags": 0, "cnt": [9, 0, 0, 0, 0, 0], "dur": 0, "start": 1, "end": 2}]}])]
+        out.append({"maxretrans": 2, "txseq0": 0, "events": evs})
+    return out
 
 
 def directed_c11b(rnd):
